@@ -83,11 +83,25 @@ pub fn moduli(t: &Tree, out: &mut Vec<u64>) {
     out.push(tree_len(t).max(1) as u64);
     out.push(8);
     match t {
-        Tree::Radix4(n) | Tree::Radix3(n) => {
+        Tree::Radix4(n) => {
             // every intermediate cross length divides n
             out.push((*n).max(1) as u64);
         }
-        Tree::Radix4Base(_, b) | Tree::Radix3Base(_, b) => moduli(b, out),
+        Tree::Radix3(n) => {
+            out.push((*n).max(1) as u64);
+            out.push(3); // Radix3 always owns a Butterfly3, even for k = 0
+        }
+        Tree::Radix4Base(_, b) => moduli(b, out),
+        Tree::Radix3Base(k, b) => {
+            out.push(3);
+            // intermediate cross lengths base*3^j (not power-of-two related to the total length)
+            let mut l = tree_len(b).max(1) as u64;
+            for _ in 0..*k {
+                l *= 3;
+                out.push(l);
+            }
+            moduli(b, out)
+        }
         Tree::MixedRadix(a, b) | Tree::MixedRadixSmall(a, b) | Tree::GoodThomas(a, b) | Tree::GoodThomasSmall(a, b) => {
             moduli(a, out);
             moduli(b, out);
